@@ -43,7 +43,7 @@ RULE = ("generated: a case = (layout, buffer length, append flag, #subpaths, #wr
 
 LAYOUTS = [(1, 1), (1, 2), (1, 3), (1, 4), (2, 2)]
 
-ENV_KEYS = ("routing", "buffer_kb", "issend_freq", "num_irecvs", "isends_wait", "placement")
+ENV_KEYS = ("routing", "buffer_kb", "issend_freq", "num_irecvs", "isends_wait", "placement", "policy")
 
 
 def env_of(case, base=None):
@@ -104,6 +104,14 @@ def gen_mo_cases(tier, seed):
                                   "maxlen": rnd.choice([3, 30, 200]), "flags": flags, "seed": rnd.randrange(1, 10 ** 9),
                                   "routing": rnd.choice(["NONE", "NR", "NLNR"]),
                                   "sim_seed": rnd.randrange(1, 10 ** 6)})
+    # directed: files directly in a prefix directory that does not exist yet, written immediately after construction, every async
+    # its own message, schedules in which some ranks run far ahead of others (a rank other than 0 may have to create the directory)
+    for i in range(48 if tier == "quick" else 300):
+        nodes, ppn = [(1, 3), (1, 4), (2, 2), (1, 2)][i % 4]
+        cases.append({"kind": "mo", "nodes": nodes, "ppn": ppn, "L": rnd.choice([0, 7, -1]), "append": 0, "nsub": 6, "nwrites": rnd.choice([2, 4, 10]),
+                      "maxlen": 20, "flags": 32 | (16 if i % 5 == 0 else 0) | rnd.choice([0, 1]), "seed": rnd.randrange(1, 10 ** 9),
+                      "sim_seed": rnd.randrange(1, 10 ** 6), "routing": rnd.choice(["NONE", "NR", "NLNR"]), "buffer_kb": 0,
+                      "policy": ["racer", "racer", "racer", "starve", "racer", "racer", "racer", "uniform"][i % 8]})
     # directed: big lines against the default 1 MiB buffer (crosses the real threshold)
     cases.append({"kind": "mo", "nodes": 1, "ppn": 2, "L": -1, "append": 0, "nsub": 2, "nwrites": 6, "maxlen": 400000, "flags": 1,
                   "seed": seed + 5, "sim_seed": seed})
@@ -121,7 +129,8 @@ def run_case(binary, case):
     else:
         args = ["day", case["seed"], case["L"], case["nwrites"], ",".join(map(str, case["ts"]))]
     # a local time zone far from UTC: localtime instead of gmtime would show
-    return C.run_sim(binary, args, nodes=case["nodes"], ppn=case["ppn"], sim_seed=case.get("sim_seed", 1), want_log=False, timeout=120,
+    return C.run_sim(binary, args, nodes=case["nodes"], ppn=case["ppn"], sim_seed=case.get("sim_seed", 1), policy=case.get("policy", "uniform"),
+                     want_log=False, timeout=120,
                      env=env_of(case, {"TZ": "XYZ+11:30"}))
 
 
